@@ -225,7 +225,18 @@ func (w *c07World) handle(sub *c07Sub) bool {
 				}
 				sub.pcs[m.Id] = pc
 			}
-			if err := pc.SetRemoteDescription(webrtc.SessionDescription{Type: webrtc.SDPTypeOffer, SDP: m.SDP}); err != nil {
+			err := pc.SetRemoteDescription(webrtc.SessionDescription{Type: webrtc.SDPTypeOffer, SDP: m.SDP})
+			if err != nil && pc.ConnectionState() == webrtc.PeerConnectionStateClosed {
+				// the harness's own PeerConnection for this id is closed (seen once in 64000 timer-mode cases, not
+				// reproducible): that says nothing about the offer; answer it with a fresh one
+				pc, err = webrtc.NewPeerConnection(webrtc.Configuration{})
+				if err != nil {
+					t.Fatalf("VERIF-HARNESS-ERROR: %v", err)
+				}
+				sub.pcs[m.Id] = pc
+				err = pc.SetRemoteDescription(webrtc.SessionDescription{Type: webrtc.SDPTypeOffer, SDP: m.SDP})
+			}
+			if err != nil {
 				t.Fatalf("C07: the subscriber's PeerConnection rejects the server's offer: %v", err)
 			}
 			ans, err := pc.CreateAnswer(nil)
